@@ -19,6 +19,9 @@ def run(ctx):
     R.rule_tool_formatter(ctx)
     R.rule_write_after_render(ctx)
     R.rule_ctor_gap(ctx)
-    ctx.assume("comment capture (trivia/comment.rs: which entity a comment is filed under from its byte position) is NOT analysed; text the "
+    R.rule_capture_anchors(ctx)
+    R.rule_transparent_groups(ctx)
+    ctx.assume("of the comment capture only the anchor selection among candidate entities is analysed (capture-anchors); grouping of comment "
+               "tokens, exclusion ranges and trailing/leading classification are NOT; text the "
                "lexer never hands to the parser is C11; attached text blocks (@[doc]/@[literal]) are not covered")
     return {}
